@@ -1135,20 +1135,27 @@ def check_botocore(ctx, tmpdir):
         status, headers, content = _XML[op]
         return AWSResponse(request.url, status, headers, _Raw(content))
 
-    clients = []
-    for scheme in ('http', 'https'):
-        for calc in ('when_required', 'when_supported'):
-            c = session.create_client(
-                's3', region_name='us-east-1', endpoint_url=scheme + '://localhost:9',
-                aws_access_key_id='a', aws_secret_access_key='b',
-                config=Config(retries={'max_attempts': 4, 'mode': 'standard'},
-                              request_checksum_calculation=calc))
-            c.meta.events.register('before-send.s3', before_send)
-            clients.append((scheme + '/' + calc, c))
+    def make_clients():
+        out = []
+        for scheme in ('http', 'https'):
+            for calc in ('when_required', 'when_supported'):
+                mode = 'standard' if scheme == 'http' else 'legacy'
+                c = session.create_client(
+                    's3', region_name='us-east-1', endpoint_url=scheme + '://localhost:9',
+                    aws_access_key_id='a', aws_secret_access_key='b',
+                    config=Config(retries={'max_attempts': 4, 'mode': mode},
+                                  request_checksum_calculation=calc))
+                c.meta.events.register('before-send.s3', before_send)
+                out.append((scheme + '/' + calc + '/' + mode, c))
+        return out
+
+    clients = make_clients()
     n = 3000 if ctx.thorough() else 64
     lines, expect = [], []
     with unittest.mock.patch('time.sleep', lambda x: None):
         for i in range(n):
+            if i % 40 == 39:
+                clients = make_clients()      # the standard retry mode has a per-client retry quota
             name, client = clients[i % len(clients)]
             size = rng.choice([0, 1, 2, 5, 9, 14, 23])
             case = {'client': name, 'size': size, 'chunk': rng.choice([2, 3, 5]), 'mpthr': rng.choice([1, 4, 50]),
